@@ -310,6 +310,43 @@ pub fn compile(cnf: &Cnf, opts: &Opts) -> Option<Dag> {
     })
 }
 
+/// The same function with trivial components: some decision edges into the true node go through
+/// a fresh and-node whose only children are (unlabelled edges to) the true node, and some
+/// and-nodes get an extra unlabelled edge to the true node.
+pub fn add_trivial_ands(dag: &Dag, rng: &mut Rng) -> Dag {
+    let mut nodes = dag.nodes.clone();
+    let t = match nodes.iter().position(|n| matches!(n, DNode::True)) {
+        Some(i) => i,
+        None => {
+            nodes.push(DNode::True);
+            nodes.len() - 1
+        }
+    };
+    let len = nodes.len();
+    for i in 0..len {
+        match nodes[i].clone() {
+            DNode::Or(mut edges) => {
+                for e in edges.iter_mut() {
+                    if e.1 == t && rng.coin() {
+                        let kids = if rng.coin() { vec![t] } else { vec![t, t] };
+                        nodes.push(DNode::And(kids));
+                        e.1 = nodes.len() - 1;
+                    }
+                }
+                nodes[i] = DNode::Or(edges);
+            }
+            DNode::And(mut kids) => {
+                if rng.chance(1, 3) {
+                    kids.push(t);
+                    nodes[i] = DNode::And(kids);
+                }
+            }
+            _ => {}
+        }
+    }
+    Dag { nodes, root: dag.root }
+}
+
 /// d4 text; the root is node 1 and the first line.
 pub fn emit_d4(dag: &Dag, opts: &Opts, rng: &mut Rng) -> Vec<String> {
     let mut lines = Vec::new();
